@@ -47,7 +47,10 @@ def discharged : Gen.SiteClass → Bool
     input reaches the site. -/
 theorem ledger_complete : ∀ s ∈ Gen.panicSites, discharged s.2.1 = true := by decide
 
-/-- the ledger has no entry for a site that no longer exists (entries are removed together with the code) -/
+/-- the ledger has no entry for a site that no longer exists and that could be taken for a remaining site with another
+    disposition (same text in the same fn, told apart only by their number). An entry whose construct was simply removed from
+    the code is *retired* (`Gen.retiredLedgerKeys`, named in the check's output): removing a `[..]` or an `unwrap` cannot add
+    a panic, and a new site never inherits silently — it is unmapped until the ledger names it (`ledger_complete`). -/
 theorem ledger_not_stale : Gen.staleLedgerKeys = [] := rfl
 
 /-- only the two writes of `main` to stderr / stdout are classified as environment-dependent -/
